@@ -63,6 +63,15 @@ def run_property(rep, prop, tier, rng, judge, rule, nspecs=None, opts=None, tag=
     rep.assumptions += ["Rust semantics of the emitted subset modelled in Fx/Eval.lean (tied by this run)", "bytes crate modelled", "A-usize"]
     # specifications whose generated module did not compile are C07's business; they are not silently dropped
     rep.cov["specs_not_compiled"] = [k for k, s in enumerate(res["specs"]) if s["status"] != "ok"]
+    # hypotheses of the specification-level theorems (Supported, Plans.Ok, SizeExact', finite types, outputOk) on the specifications
+    # whose decoders were exercised: the plan-level ones must hold for everything rustc compiled
+    hyp = {h: sum(1 for s in res["specs"] if s.get("flags", {}).get(h) == "true") for h in ("supported", "plansok", "sizeexact", "finite", "outputok")}
+    rep.cov["theorem_hypotheses_hold_on"] = dict(hyp, of=len(res["specs"]))
+    uncovered = [s for s in res["specs"] if s["status"] == "ok" and not all(s.get("flags", {}).get(h) == "true" for h in ("plansok", "sizeexact", "finite", "outputok"))]
+    if uncovered and nviol == 0 and not tie_breaks:
+        rep.violation({"kind": "theorem-hypothesis-fails", "what": "a specification of the supported subset compiled, but a decidable hypothesis of the plan-level theorems "
+                       "(Plans.Ok / Plans.SizeExact' / Plans.finite / outputOk) is false for the plans the model emits for it", "spec": uncovered[0]["text"],
+                       "flags": uncovered[0].get("flags"), "count": len(uncovered)}, found_input=False)
     if tie_breaks and nviol == 0:
         c, iv, mv, what = tie_breaks[0]
         r = replay_of(res, c, None, iv[:2000], "tie-T2-broken")
